@@ -20,7 +20,7 @@ CHECKS = {
          "Every node of every accepted tree in the bound is checked for nesting/order/re-parse; every rejection with a diagnostic is checked against a direct line/column count; helpers are checked for every text x offset in the bound.",
          "Trusted: direct line/column counter. Every rejection must carry a diagnostic; trees returned together with an error must nest their ranges too.", "C15"),
  "C03": ("bounded-exhaustive enumeration of operator x value-kind products, builtin x argument-list products and parsed token sequences on the real evaluator; instrumented step budget",
-         "Every formula in the enumerated products is evaluated by the real Resolve with a data map holding every supported and odd Go kind; each evaluation is judged for no panic, value xor error, termination; every builtin with every wrong number of arguments (plain and spread) and every negative string position down to the smallest 64-bit integer must be an error.",
+         "Every formula in the enumerated products is evaluated by the real Resolve with a data map holding every supported and odd Go kind; each evaluation is judged for no panic, value xor error, termination; every builtin with every wrong number of arguments (plain and spread) and every negative string position down to the smallest 64-bit integer must be an error - every time, also on a runner that has reported it before; arrays and maps of the same or of different Go types under all eight comparison operators.",
          "Trusted: value alphabet in checks/zoo.go. Host functions that panic themselves and pad lengths between 1e6 and absurd are outside the statement.", "C03"),
  "C04": ("bounded-exhaustive operand-grid exploration against an exact big-integer decimal reference model",
          "All ordered pairs of an 880-operand grid under + - * / %, groups of operands around base exponents far outside decimal128 (up to 10^15), all 3-operation chains over a sub-grid and all listed float64/int/int64 data values (incl. whole numbers up to 2^52 with 1 to 16 fractional bits) are evaluated on the real evaluator and compared with exact decimal arithmetic rounded half-even to 34 digits, including the float64 handed back.",
@@ -29,10 +29,10 @@ CHECKS = {
          "Every ordered pair of a 290-value grid (number spellings, computed numbers, exponents far outside decimal128, data values, strings, booleans, nulls) is evaluated under all eight operators and the results are judged against trichotomy, negation, kind-strictness and the exact order.",
          "Trusted: exact decimal comparison, Go byte-wise string order. Mixed-kind < and == only under the negation laws.", "C05"),
  "C06": ("exhaustive exploration of condition x branch products for the six selection operators and all depth-2 nestings against a truthiness reference; branch evaluation observed by recording functions and locals",
-         "Every (condition, branch) combination and every depth-2 nesting is evaluated on the real evaluator; the result must be the operand the reference semantics selects, unchanged, and only the selected branch of ?: may run; operands spelled exactly like the condition (stateful host calls) against a differently spelled alias; one parsed tree under every ordered pair of 21 inputs (context kind x value) against freshly parsed trees.",
+         "Every (condition, branch) combination and every depth-2 nesting is evaluated on the real evaluator; the result must be the operand the reference semantics selects, unchanged, and only the selected branch of ?: may run; operands spelled exactly like the condition (stateful host calls) against a differently spelled alias; one parsed tree under every ordered pair of 21 inputs (context kind x value) against freshly parsed trees; assignments as branches with and without parentheses.",
          "Trusted: truthiness table from the statement; computed operands are classified by the value they are observed to have; an operand with a side effect must be evaluated once.", "C06"),
  "C12": ("bounded-exhaustive enumeration of literal spellings against a reference number automaton and exact decimal values",
-         "Every string up to n characters over the literal alphabet and every long literal in the family is scanned, parsed and evaluated in six syntactic contexts; accept/reject, tree and exact value must match the reference; separators at every position of digit groups of 20 to 257 digits; all pairs and triples of 21 literal formulas on one runner against fresh runners.",
+         "Every string up to n characters over the literal alphabet and every long literal in the family is scanned, parsed and evaluated in six syntactic contexts; accept/reject, tree and exact value must match the reference; separators at every position of digit groups of 20 to 257 digits; all pairs and triples of 21 literal formulas on one runner against fresh runners (incl. refused exponents before ordinary ones).",
          "Trusted: reference automaton and exact decimals. Exponents of more than 17 digits: only an error or a value that behaves like the number written is accepted.", "C12"),
  "C13": ("bounded-exhaustive enumeration of texts x quote styles x escape-form combinations against a reference escaper",
          "Every text up to n atoms is escaped in every combination of equivalent forms, evaluated on the real code and compared byte for byte; every open literal must be rejected.",
@@ -41,7 +41,7 @@ CHECKS = {
          "Every dotted path up to depth d over a key universe (incl. reserved words, underscore-prefixed and case-variant keys, typed nil pointers of several pointee types), with . or !. at every position, is evaluated against four data configurations and compared with a type-switch walk of the same data (value, typeof, strict and loose null-equality, error); one runner after 12 000 failed evaluations must answer like a fresh one.",
          "Trusted: the walk in checks/c16.go. Member access on non-map non-struct values, pointers to structs and unexported fields: only no-panic.", "C16"),
  "C17": ("bounded-exhaustive enumeration of strings x strings x positions for every string/list builtin against naive reference loops, plus the algebraic laws evaluated inside the language",
-         "All strings up to 4 symbols over a 5-symbol alphabet (incl. a multi-byte character), all needles, all positions from -2 to len+2 (pads: every length up to 130 and around 256, 1024, 4096) are run through every builtin on the real evaluator and compared with naive references; regexp against RE2 directly.",
+         "All strings up to 4 symbols over a 5-symbol alphabet (incl. a multi-byte character), all needles, all positions from -2 to len+2 (pads: every length up to 130 and around 256, 1024, 4096) are run through every builtin; 14 forms x 2 401 argument pairs answered by one runner in both orders against fresh runners on the real evaluator and compared with naive references; regexp against RE2 directly.",
          "Trusted: naive references, Go regexp. Byte semantics for len.", "C17"),
  "C18": ("grid-exhaustive exploration of decimal arguments against exact rational arithmetic and a self-checking 320-bit reference for the transcendental functions",
          "Every argument of the grid is run through all numeric builtins on the real evaluator; integer-valued functions are compared exactly (arguments of up to 34 digits), sqrt/exp/ln/log to 5e-15 relative (magnitudes up to 1e5000), max/min over all short lists incl. exponent-carrying zeros, bit operators over all pairs of 33 integers up to the int64 limits and a grid of non-integers, numeric and non-numeric text.",
@@ -50,22 +50,22 @@ CHECKS = {
          "Every triple of the grid is evaluated through date/addDate and all extractors inside the language in six zones; civil fields, weekday and Unix milliseconds are compared with an independent calendar computation; useTimezone/timeFormat/now/toDay likewise.",
          "Trusted: calendar arithmetic in checks/c19.go, Go zone tables for offsets only. Non-existent local midnights skipped and counted.", "C19"),
  "C07": ("bounded-exhaustive program enumeration and operation histories against a store-passing reference evaluator plus a deep identity/content snapshot of caller data",
-         "Every program up to n nodes over locals, a field, literals, assignment, comma, arrays, recording calls and conditionals is run on five data configurations, every history of up to three pool programs on one runner (going on after programs that fail), every forbidden assignment target, every operator and builtin on a number reached directly and through eight operand-preserving forms; result, locals afterwards, host-call order and the frame condition are compared on each.",
+         "Every program up to n nodes over locals, a field, literals, assignment, comma, arrays, recording calls and conditionals is run on five data configurations, every history of up to three pool programs on one runner (going on after programs that fail), every forbidden assignment target, every operator and builtin on a number reached directly and through eight operand-preserving forms, the callee-before-arguments order with locals re-bound inside the arguments; result, locals afterwards, host-call order and the frame condition are compared on each.",
          "Trusted: reference evaluator in checks/c07.go. Arithmetic on non-numbers is tainted and not compared.", "C07"),
  "C08": ("explicit exploration of operation histories (all ordered pairs, triples, quadruples over sub-pools) without state merging, each observation compared with a pristine-process baseline",
          "Every history in the bound runs in one process state; each parse / evaluation / field analysis must observe exactly what the same operation observes alone in a fresh child process; shared trees are dumped before and after every operation; results handed back earlier must never change later.",
-         "Trusted: public-API tree dump; one child process per baseline. Also: the same operation 24 times in a row, and data objects shared between the evaluations of a history. The pool includes names with continue-only characters (combining marks, non-ASCII digits, joiners) and one name bound to functions of equal parameter count and different shape. Clock functions excluded.", "C08"),
+         "Trusted: public-API tree dump; one child process per baseline. Also: the same operation 24 times in a row, and data objects shared between the evaluations of a history. The pool includes names with continue-only characters (combining marks, non-ASCII digits, joiners) and one name bound to functions of equal parameter count and different shape, refused exponents next to ordinary ones; 900 000 distinct names of one length in one process. Clock functions excluded.", "C08"),
  "C09": ("stateless model checking of the real code: cooperative scheduler with yield points injected by overlay, iterative preemption bounding (DFS over choice prefixes), plus a separate free-running race-detector pass",
-         "Every interleaving with at most b preemptions of 2-3 goroutines (evaluate / analyse one of 12 shared trees with per-thread data, parse, parse+format a bad text) at function-entry and shared-variable granularity is executed on the real package; each thread must observe its sequential result, shared trees must stay unchanged, no lock may be left behind (deadlocks among shimmed locks and locks left locked by an error path are violations). A control scenario proves the scheduler interleaves inside evaluations. Leg B samples free-running schedules under -race.",
+         "Every interleaving with at most b preemptions of 2-3 goroutines (evaluate / analyse one of 21 shared trees with per-thread data - incl. a refused call, paired logarithms, a read-only catalogue shared by all data maps -, parse, parse+format a bad text and walk the returned tree) at function-entry and shared-variable granularity is executed on the real package; each thread must observe its sequential result, shared trees must stay unchanged, no lock may be left behind (deadlocks among shimmed locks and locks left locked by an error path are violations). A control scenario proves the scheduler interleaves inside evaluations. Leg B samples free-running schedules under -race.",
          "Trusted: internal/sched, vinstr yield injection, Go race detector. Data races between yield points are only covered by the sampled leg B.", "C09"),
  "C10": ("bounded-exhaustive formula enumeration against an independent field collector over the reference tree, plus a sufficiency oracle by restricted/perturbed re-evaluation",
-         "Every formula up to n nodes (and every accepted token sequence up to 5 tokens over the analysis alphabet) is analysed by the real code and by a collector walking the reference tree; set inclusion both ways, duplicates, refusals, the non-local variant and sufficiency on three data maps plus a runner without data map are checked on each; name sets that repeat or differ only in case in every order; sums of 1 to 12 distinct names with two repeats at every pair of places.",
+         "Every formula up to n nodes (and every accepted token sequence up to 5 tokens over the analysis alphabet) is analysed by the real code and by a collector walking the reference tree; set inclusion both ways, duplicates, refusals, the non-local variant and sufficiency on three data maps plus a runner without data map are checked on each; name sets that repeat or differ only in case in every order; sums of 1 to 12 distinct names with two repeats at every pair of places; the local spelled `$`.",
          "Trusted: reference parser and collector. Pure assignment targets may or may not be reported.", "C10"),
  "C11": ("exhaustive exploration of synthesised signatures x argument lists against a partial conversion specification; every invocation recorded",
-         "Every signature in the family (reflect.FuncOf/MakeFunc; 21 parameter kinds incl. unsigned integers and a type that merely implements context.Context) is called with every argument list up to n+2 arguments over 16 base and 50 extended argument kinds (integer range limits, non-finite numbers, a float32 midpoint, Go-typed slices and numbers, typed nil by name, aliased and address-sharing objects), with and without spread; invoked-exactly-once-or-not-at-all, received values, context identity, result normalisation and error propagation over all subsets of failing call sites x 13 error values (sentinels of the standard library bare and wrapped, custom types, empty text) are checked.",
+         "Every signature in the family (reflect.FuncOf/MakeFunc; 21 parameter kinds incl. unsigned integers and a type that merely implements context.Context) is called with every argument list up to n+2 arguments over 16 base and 50 extended argument kinds (integer range limits, non-finite numbers, a float32 midpoint, Go-typed slices and numbers, typed nil by name, aliased and address-sharing objects, a map with a nil entry), with and without spread; invoked-exactly-once-or-not-at-all, received values, context identity, result normalisation and error propagation over all subsets of failing call sites x 13 error values (sentinels of the standard library bare and wrapped, custom types, empty text) are checked.",
          "Trusted: table written from the statement; unspecified cells only require no panic and at most one invocation.", "C11"),
  "C20": ("explicit-state exploration of runner operation histories in lock-step with a plain-map reference model: all histories to depth d unmerged, breadth-first with state merging and differential probes to depth 7+",
-         "Every history over a 52-operation menu (incl. evaluations that fail in three ways, re-binding a local to an equal number written differently, lists built from the data and shared between locals) up to depth d is replayed on a fresh real runner and compared step by step with the model (results, gets, every caller-visible map); merged search adds depth and checks that a state reached two ways answers all probes alike; one operation repeated 25 000 / 120 000 times on one runner, then every read.",
+         "Every history over a 55-operation menu (incl. evaluations that fail in three ways, re-binding a local to an equal number written differently, lists built from the data and shared between locals, bindings followed by a failure, the map `this` evaluated to handed back by the host) up to depth d is replayed on a fresh real runner and compared step by step with the model (results, gets, every caller-visible map); merged search adds depth and checks that a state reached two ways answers all probes alike; one operation repeated 25 000 / 120 000 times on one runner, then every read.",
          "Trusted: model in checks/c20.go.", "C20"),
 }
 PENDING_REASON = "check not built yet in this phase (planned: bounded-exhaustive enumeration per DESIGN.md); will be claimed once its check runs green"
